@@ -186,6 +186,8 @@ def _framing(prog, chk, L4):
     elif not ok_read:
         chk.violation(L4, 'zlib_uncompress|no-prefix', locstr(zu.node), 'decompressor does not read the length prefix')
     _deflate_complete(prog, chk, L4, zc)
+    _pending_output(prog, chk, L4, zc, 'deflate')
+    _pending_output(prog, chk, L4, zu, 'inflate')
     # every compressed codec goes through these two functions: checked per codec above (framing)
 
 
@@ -280,3 +282,50 @@ def _deflate_complete(prog, chk, L4, zc):
         else:
             chk.ok(L4, 'zlib_compress: %s -> %d deflate call(s), last with Z_FINISH' % (inst, len(flushes)),
                    locstr(outer), site='deflate-complete-%d' % size)
+
+
+def _pending_output(prog, chk, L4, f, api):
+    """The inner loop around deflate()/inflate() must run again exactly while the output
+    buffer came back full (more output is pending): evaluated on the loop condition for
+    avail_out in {0, >0} x avail_in in {0, >0}.  Otherwise part of the stream is dropped."""
+    from ..feval import Evaluator, UNKNOWN, Choice
+    from . import c05
+    inner = None
+    for n in walk(f.body):
+        if n.get('kind') in ('DoStmt', 'WhileStmt'):
+            calls = [x for x in walk(n) if x.get('kind') == 'CallExpr' and
+                     (strip(children(x)[0]).get('referencedDecl') or {}).get('name') == api]
+            loops_inside = [x for x in walk(n) if x is not n and x.get('kind') in ('DoStmt', 'WhileStmt', 'ForStmt')]
+            if calls and not loops_inside:
+                inner = n
+    if inner is None:
+        raise AnalysisBroken('%s: inner %s loop not found' % (f.name, api))
+    cond = children(inner)[1] if inner['kind'] == 'DoStmt' else children(inner)[0]
+    strm = [x for x in walk(f.body) if x.get('kind') == 'VarDecl' and 'z_stream' in (x.get('type') or '')]
+    sid = strm[0]['id']
+    ev = Evaluator(prog, f, lambda *a, **k: NotImplemented)
+    ev.inner_cond, ev.in_left, ev.deflate_calls = [], None, []
+    c05._patch(ev, sid, 0, False)
+    for out_left, want in ((0, True), (1, False)):
+        for in_left in (0, 5):
+            if api == 'inflate' and out_left and in_left:
+                continue    # inflate returns with free output space only when it needs input or ended
+            env = {('member', sid, 'avail_out'): out_left, ('member', sid, 'avail_in'): in_left}
+            v = ev.ev(cond, env)
+            unknown = v is UNKNOWN or isinstance(v, Choice)
+            got = None if unknown else bool(ev.truth(v))
+            inst = '%s: inner loop after %s() with output buffer %s, %s input left' % (
+                f.name, api, 'full' if out_left == 0 else 'not full', 'some' if in_left else 'no')
+            if got is want:
+                chk.ok(L4, inst + (' -> runs again' if want else ' -> ends'), locstr(inner),
+                       site=inst)
+            elif want and got is False:
+                chk.violation(L4, '%s|pending-output-dropped' % f.name, locstr(inner),
+                              inst + ': the loop ends although more output is pending; the rest of the '
+                              'stream is silently dropped (%s)' % (
+                                  'truncated blob' if api == 'deflate' else 'truncated payload'))
+            elif not want and got is True:
+                chk.violation(L4, '%s|inner-spins' % f.name, locstr(inner),
+                              inst + ': the loop runs again although no output is pending')
+            else:
+                chk.unknown(L4, inst, 'loop condition depends on values outside the model')
